@@ -102,11 +102,15 @@ def cases(tier):
     for sk in ["cat3", "internal_sample", "historical_leaf", "unary_sample"]:
         cs.append(Case(f"moments:{sk}", h_node_moments, dict(skel=sk)))
         cs.append(Case(f"mean_var:{sk}", h_mean_var, dict(skel=sk, G=3)))
+    cs.append(Case("fp-fixed:unary_sample:eps=sym", constrain.h_kernel_fp,
+                   dict(skel="unary_sample", which=["fixed", "max"], eps_value=None,
+                        qtimeout_ms=120000), weight=50))
     for sk in (["cat3", "internal_sample"] if tier == "quick"
-               else ["cat3", "internal_sample", "historical_leaf", "unary_sample", "two_parents"]):
-        cs.append(Case(f"fp-fixed:{sk}", constrain.h_kernel_fp,
-                       dict(skel=sk, which=["fixed", "max"], eps_value=None,
-                            qtimeout_ms=120000), weight=50))
+               else ["cat3", "internal_sample", "historical_leaf", "two_parents"]):
+        for ev in ((1e-8,) if tier == "quick" else (1e-8, 1.0)):
+            cs.append(Case(f"fp-fixed:{sk}:eps={ev}", constrain.h_kernel_fp,
+                           dict(skel=sk, which=["fixed", "max"], eps_value=ev, qtimeout_ms=120000,
+                                case_timeout_s=900 if tier == "thorough" else 420), weight=50))
     return cs
 
 
